@@ -32,7 +32,8 @@ REQUIRED = {"discipline.only_parser_error": {"quick": 40000, "thorough": 3000000
             "reuse.parse_after_failure_same_as_fresh": {"quick": 200, "thorough": 15000}}
 REQUIRED_SEEN = {"fault_kind": ["second_feature", "text_after_steps", "examples_outside_outline", "and_without_predecessor",
                                 "but_without_predecessor", "ragged_table_row", "malformed_tag", "second_background",
-                                "docstring_before_step", "table_before_step", "background_after_scenario"],
+                                "docstring_before_step", "table_before_step", "background_after_scenario", "tags_entry_malformed_tag",
+                                "tags_entry_tag_expected"],
                  "entry_point": ENTRY_POINTS}
 EXHAUSTIVE = True
 EXHAUSTIVE_SCOPE = "every catalogued fault kind at every position of each generated document where it is a fault; every single-line mutation of each generated document"
@@ -199,6 +200,10 @@ def fault_injection(mon, P, rng, ndocs, i18n):
             for i, it in enumerate(c["items"]):
                 k = key + ("item", i)
                 if it["kind"] == "rule":
+                    # an Examples block directly below a Rule header (after its description): never inside an outline,
+                    # whatever statement came before the rule
+                    rfirst = lines[k] + 1 + len(it.get("desc") or [])
+                    injections.append(("examples_outside_outline", rfirst, "    %s: stray" % kws["examples"][0], rfirst))
                     visit_scenarios(it, k, has)
                     continue
                 # first line after the scenario header (+description)
@@ -297,6 +302,22 @@ def fault_injection(mon, P, rng, ndocs, i18n):
             mon.check("fault.only_parser_error", k != "other", lambda: dict(fault=kind, text=t2, exception=repr(val)))
             mon.check("fault.reported_at_injected_line", k == "parser_error" and val.line == 1,
                       lambda: dict(fault=kind, text=t2, outcome=k, error_line=getattr(val, "line", None), want_line=1))
+        # multi-line tag texts through the parse_tags entry point: blank / whitespace-only / comment lines before the fault
+        for _ in range(3):
+            pool = ["@a @b", "  @c", "", "   ", "# a comment", "@d  # trailing comment", "\t@e @f.g"]
+            tl = [rng.choice(pool) for _ in range(rng.randint(1, 6))]
+            at = rng.randrange(len(tl) + 1)
+            kind = rng.choice(["malformed_tag", "tag_expected"])
+            tl.insert(at, "  @ok notatag" if kind == "malformed_tag" else "  notatag @x")
+            t3 = "\n".join(tl)
+            k, val = call(P.parse_tags, t3)
+            mon.case(("fault", "tags", t3), True)
+            mon.seen("fault_kind", "tags_entry_" + kind)
+            if k != "watchdog":
+                mon.check("fault.only_parser_error", k != "other", lambda: dict(fault=kind, text=t3, exception=repr(val)))
+                mon.check("fault.reported_at_injected_line", k == "parser_error" and val.line == at + 1,
+                          lambda: dict(fault=kind, entry="parse_tags", text=t3, outcome=k, error_line=getattr(val, "line", None),
+                                       want_line=at + 1))
         for kind, at, newline, want_line in injections:
             new = src[:at - 1] + [newline] + src[at - 1:]
             t2 = "\n".join(new) + "\n"
